@@ -37,7 +37,15 @@ def props_for(rel):
              'src/registers/core.c': ['C01', 'C02', 'C03', 'C04', 'C05'], 'src/register-protocol.c': ['C06', 'C07', 'C08', 'C09'],
              'src/variable-length-integer.c': ['C14', 'C13'], 'src/endpoints/buffer.c': ['C17'],
              'include/ufw/ring-buffer.h': ['C19'], 'src/endpoints/continuable-sink.c': ['C09', 'C07'], 'src/allocator.c': ['C09'],
-             'src/endpoints/trivial.c': ['C17'], 'src/registers/internal.h': ['C04'], 'include/ufw/bit-operations.h': ['C15', 'C01']}
+             'src/endpoints/trivial.c': ['C17'], 'src/registers/internal.h': ['C04'],
+             'include/ufw/bit-operations.h': ['C15', 'C01', 'C04', 'C06', 'C07', 'C08', 'C12'],
+             'include/ufw/length-prefix.h': ['C13'], 'include/ufw/register-protocol.h': ['C06', 'C07', 'C08', 'C09'],
+             'include/ufw/register-table.h': ['C01', 'C02', 'C03', 'C04', 'C05'], 'include/ufw/sx.h': ['C20'],
+             'include/ufw/ring-buffer-iter.h': ['C19'], 'include/ufw/endpoints.h': ['C17', 'C13', 'C09'],
+             'include/ufw/persistent-storage.h': ['C10', 'C11'], 'include/ufw/byte-buffer.h': ['C18', 'C17', 'C13'],
+             'include/ufw/endpoints/continuable-sink.h': ['C09', 'C07'], 'include/ufw/rfc1055.h': ['C12', 'C08'],
+             'include/ufw/variable-length-integer.h': ['C14', 'C13'], 'include/ufw/allocator.h': ['C09'],
+             'include/ufw/octet-ring.h': ['C19'], 'include/ufw/crc/crc16-arc.h': ['C16', 'C07', 'C08']}
     out = list(m.get(rel, []))
     for p in extra.get(rel, []):
         if p not in out:
